@@ -1006,13 +1006,13 @@ class Router(object):
                     if final:
                         raise ValueError(pattern)
                     tokens.append(part[1: -1])
-                    re_str += "\\/?(.+)"
+                    re_str += "\\/(.+)"
                     final = True
                 else:
                     tokens.append(part[1:])
                     re_str += "\\/([^\\/]+)"
             else:
-                re_str += '\\/' + part
+                re_str += '\\/' + re.escape(part)
 
         if re_str != "^\\/":
             re_str += "\\/?"
